@@ -110,6 +110,10 @@ void vm_heap_destroy(VmHeap *heap) {
     free(heap->intern_table);
     heap->intern_table = NULL;
     heap->intern_count = 0;
+    free(heap->deferred);
+    heap->deferred = NULL;
+    heap->deferred_count = 0;
+    heap->deferred_capacity = 0;
 }
 
 /* ========================================================================
@@ -151,6 +155,13 @@ static void release_tuple(VmHeap *heap, VmTuple *t);
 static void release_closure(VmHeap *heap, VmClosure *c);
 static void release_hashmap(VmHeap *heap, VmHashMap *m);
 
+/* Freeing an object releases what it contains, one C stack frame pair per
+ * nesting level.  Values can nest deeper than the C stack allows, so past
+ * this depth a dead object is queued and freed by the outermost call. */
+#define RELEASE_MAX_DEPTH 256
+
+static void free_object(VmHeap *heap, NanoValue v);
+
 void vm_release(VmHeap *heap, NanoValue v) {
     if (!val_is_heap_obj(v) && v.tag != TAG_FUNCTION) return;
     void *ptr = v.as.obj;
@@ -161,6 +172,26 @@ void vm_release(VmHeap *heap, NanoValue v) {
     if (hdr->ref_count > 0) return;
 
     /* ref_count reached 0 - free the object */
+    if (heap->release_depth >= RELEASE_MAX_DEPTH) {
+        if (heap->deferred_count >= heap->deferred_capacity) {
+            uint32_t new_cap = heap->deferred_capacity ? heap->deferred_capacity * 2 : 64;
+            NanoValue *grown = realloc(heap->deferred, new_cap * sizeof(NanoValue));
+            if (!grown) return; /* out of memory: leak rather than overflow the stack */
+            heap->deferred = grown;
+            heap->deferred_capacity = new_cap;
+        }
+        heap->deferred[heap->deferred_count++] = v;
+        return;
+    }
+    heap->release_depth++;
+    free_object(heap, v);
+    while (heap->release_depth == 1 && heap->deferred_count > 0) {
+        free_object(heap, heap->deferred[--heap->deferred_count]);
+    }
+    heap->release_depth--;
+}
+
+static void free_object(VmHeap *heap, NanoValue v) {
     switch (v.tag) {
         case TAG_STRING: {
             VmString *s = v.as.string;
